@@ -120,6 +120,7 @@ OBLIGATIONS = [
     native("n_c13_point_in_poly", ["C13"], "C13.pip", "raytracing::ray::point_in_poly", RY + "n_c13_point_in_poly"),
     native("n_c13_ray_polygon", ["C13"], "C13.ray.poly", "Ray::intersects_with_data", RY + "n_c13_ray_polygon"),
     native("n_c13_ray_posed", ["C13"], "C13.ray.posed", "impl Intersectable for WallGeom / WallGeom::to_global_coords_matrix", EN + "n_c13_ray_posed"),
+    native("n_c13_occluder_equiv", ["C13", "C12"], "C13.occluder", "Model::collect_occluders / impl Intersectable for &Occluder", EN + "n_c13_occluder_equiv"),
     native("n_c13_geom_aabb", ["C13"], "C13.geom.aabb", "impl Bounded for WallGeom (aabb)", EN + "n_c13_geom_aabb"),
     native("n_c13_setback", ["C13", "C12"], "C13.setback", "Window::shades_for_setback", EN + "n_c13_setback"),
     native("n_c13_aabb_slab", ["C13"], "C13.aabb.slab", "AABB::intersects", EN + "n_c13_aabb_slab"),
